@@ -483,14 +483,16 @@ class FlatSet : private Compare {
     return insert(std::forward<V>(v)).first;
   }
 
-  static bool value_equi(const_reference v1, const_reference v2) {
-    return !value_compare()(v1, v2) && !value_compare()(v2, v1);
-  }
-
   Compare &compRef() { return static_cast<Compare &>(*this); }
   const Compare &compRef() const { return static_cast<const Compare &>(*this); }
 
-  void eraseDuplicates() { _sortedVector.erase(std::unique(mbegin(), mend(), value_equi), end()); }
+  /// Equivalence according to the comparator object of this set (it may be stateful)
+  struct ValueEqui {
+    const Compare &_comp;
+    bool operator()(const_reference v1, const_reference v2) const { return !_comp(v1, v2) && !_comp(v2, v1); }
+  };
+
+  void eraseDuplicates() { _sortedVector.erase(std::unique(mbegin(), mend(), ValueEqui{compRef()}), end()); }
 
   VecType _sortedVector;
 };
